@@ -19,7 +19,7 @@ use crate::memsrc::MemSource;
 use anyhow::Result;
 use serde_json::json;
 use versatiles_container::{PMTilesReader, PMTilesWriter, TilesWriterTrait, VersaTilesReader, VersaTilesWriter};
-use versatiles_core::io::{DataReaderBlob, DataWriterBlob, DataWriterTrait};
+use versatiles_core::io::{DataReaderBlob, DataWriterBlob, DataWriterFile, DataWriterTrait};
 use versatiles_core::types::*;
 use versatiles_core::utils::{decompress_brotli, decompress_gzip};
 
@@ -419,6 +419,106 @@ fn test_codec_laws(rng: &mut Rng, laws: &mut Laws, kind: &str, blob: &[u8], what
 	}
 }
 
+/// a recorded run of a real writer and the on-disk states it went through
+struct Run {
+	ops: Vec<Op>,
+	/// through the real `DataWriterFile`: file bytes and writer position before each op (index
+	/// `ops.len()` = after the last op); `None`: in-memory run, states are replayed from the ops
+	snaps: Option<(Vec<Vec<u8>>, Vec<u64>)>,
+	/// bytes the path held before `DataWriterFile::from_path` (file runs only)
+	old: Option<Vec<u8>>,
+	/// `from_path` emptied the existing file (`File::create`)
+	truncated: bool,
+	/// byte strings of the OLD file the real decompressors accept
+	old_tab: Vec<Vec<u8>>,
+	target: &'static str,
+}
+impl Run {
+	fn state(&self, i: usize, k: usize) -> Vec<u8> {
+		match &self.snaps {
+			None => crash_state(&self.ops, i, k),
+			Some((snaps, poss)) => {
+				let j = i.min(self.ops.len());
+				let mut d = Disk { file: snaps[j].clone(), pos: poss[j] as usize };
+				if i < self.ops.len() {
+					d.apply_cut(&self.ops[i], k);
+				}
+				d.file
+			}
+		}
+	}
+}
+
+/// forwards every call to the REAL `DataWriterFile` and copies the file after each completed call
+/// (`get_position` makes the `BufWriter` flush, so the copy is what a reader would find)
+struct FileRecorder {
+	ops: Vec<Op>,
+	inner: DataWriterFile,
+	path: std::path::PathBuf,
+	snaps: Vec<Vec<u8>>,
+	poss: Vec<u64>,
+}
+impl FileRecorder {
+	fn new(path: &std::path::Path) -> Result<Self> {
+		let mut inner = DataWriterFile::from_path(path)?;
+		let pos = inner.get_position()?;
+		Ok(FileRecorder { ops: vec![], inner, path: path.to_path_buf(), snaps: vec![std::fs::read(path)?], poss: vec![pos] })
+	}
+	fn snap(&mut self) -> Result<()> {
+		let pos = self.inner.get_position()?;
+		self.snaps.push(std::fs::read(&self.path)?);
+		self.poss.push(pos);
+		Ok(())
+	}
+}
+impl DataWriterTrait for FileRecorder {
+	fn append(&mut self, blob: &Blob) -> Result<ByteRange> {
+		self.ops.push(Op::Append(blob.as_slice().to_vec()));
+		let r = self.inner.append(blob)?;
+		self.snap()?;
+		Ok(r)
+	}
+	fn write_start(&mut self, blob: &Blob) -> Result<()> {
+		self.ops.push(Op::WriteStart(blob.as_slice().to_vec()));
+		self.inner.write_start(blob)?;
+		self.snap()
+	}
+	fn get_position(&mut self) -> Result<u64> {
+		self.inner.get_position()
+	}
+	fn set_position(&mut self, position: u64) -> Result<()> {
+		self.ops.push(Op::SetPosition(position));
+		self.inner.set_position(position)?;
+		self.snap()
+	}
+}
+
+/// the byte strings of a run the real decompressors accept (for the model's table)
+fn valid_streams(ops: &[Op], container: char, comp: TileCompression) -> Vec<(Vec<u8>, &'static str, &'static str)> {
+	let appended: Vec<&Vec<u8>> = ops.iter().filter_map(|o| if let Op::Append(b) = o { Some(b) } else { None }).collect();
+	let mut tab = vec![];
+	if container == 'v' {
+		// ops: header, meta, …, block index, header
+		if appended.len() >= 3 {
+			tab.push((appended[appended.len() - 1].clone(), "brotli", "block index"));
+			if comp != TileCompression::Uncompressed {
+				tab.push((appended[1].clone(), comp_name(comp), "metadata"));
+			}
+		}
+	} else {
+		// ops: p:16384, meta, tiles…, p:127, root, p:end, leaves, header
+		if !appended.is_empty() {
+			tab.push((appended[0].clone(), "gzip", "metadata"));
+		}
+		if let Some(i) = ops.iter().position(|o| *o == Op::SetPosition(127)) {
+			if let Some(Op::Append(root)) = ops.get(i + 1) {
+				tab.push((root.clone(), "gzip", "root directory"));
+			}
+		}
+	}
+	tab
+}
+
 fn emit(out: &mut Out, rng: &mut Rng, laws: &mut Laws, src: &Src, container: char, all_header_cuts: bool, only_cuts: Option<Vec<(usize, usize)>>) {
 	let (ops, real_bytes) = match record(src, container) {
 		Ok(o) => o,
@@ -430,42 +530,76 @@ fn emit(out: &mut Out, rng: &mut Rng, laws: &mut Laws, src: &Src, container: cha
 	};
 	let final_bytes = crash_state(&ops, ops.len(), 0);
 	out.oracle(real_bytes == final_bytes, "C12 materialise: replaying the recorded operations does not give the bytes of the real DataWriterBlob", json!({"kind": "materialise", "format": container.to_string()}), json!({"case": src.show()}));
-	// the byte strings the real decompressors accept, for the model's table
-	let appended: Vec<&Vec<u8>> = ops.iter().filter_map(|o| if let Op::Append(b) = o { Some(b) } else { None }).collect();
+	let run = Run { ops, snaps: None, old: None, truncated: false, old_tab: vec![], target: "memory" };
+	judge(out, rng, laws, src, container, &run, all_header_cuts, only_cuts);
+}
+
+/// runs the real writer through the real `DataWriterFile` on `path` (which may already hold a file)
+fn record_file(src: &Src, container: char, path: &std::path::Path, old_tab: Vec<Vec<u8>>) -> Result<Run, String> {
+	let old = std::fs::read(path).unwrap_or_default();
+	let rt = tokio::runtime::Builder::new_current_thread().enable_all().build().unwrap();
+	let mut mem = src.mem();
+	let mut rec = FileRecorder::new(path).map_err(|e| format!("err: {e}"))?;
+	let r = catch(|| {
+		rt.block_on(async {
+			if container == 'v' {
+				VersaTilesWriter::write_to_writer(&mut mem, &mut rec).await
+			} else {
+				PMTilesWriter::write_to_writer(&mut mem, &mut rec).await
+			}
+		})
+	});
+	match r {
+		Ok(Ok(())) => {
+			let truncated = !old.is_empty() && rec.snaps[0].is_empty();
+			let target = if old.is_empty() { "file-fresh" } else { "file-overwrite" };
+			// without a truncation the model starts from what `from_path` left (= the old bytes)
+			let old = if truncated { old } else { rec.snaps[0].clone() };
+			let FileRecorder { ops, inner, snaps, poss, .. } = rec;
+			drop(inner); // flush + close: the completed file
+			Ok(Run { ops, snaps: Some((snaps, poss)), old: Some(old), truncated, old_tab, target })
+		}
+		Ok(Err(e)) => Err(format!("err: {e}")),
+		Err(p) => Err(format!("panic: {p}")),
+	}
+}
+
+fn judge(out: &mut Out, rng: &mut Rng, laws: &mut Laws, src: &Src, container: char, run: &Run, all_header_cuts: bool, only_cuts: Option<Vec<(usize, usize)>>) {
+	let ops = &run.ops;
+	let final_bytes = run.state(ops.len(), 0);
 	let mut tab: Vec<Vec<u8>> = vec![];
-	if container == 'v' {
-		// ops: header, meta, …, block index, header
-		if appended.len() >= 3 {
-			let meta = appended[1];
-			let idx = appended[appended.len() - 1];
-			tab.push(idx.clone());
-			out.count(if idx.len() >= 256 { "v_block_index_ge_256_bytes" } else { "v_block_index_lt_256_bytes" });
-			test_codec_laws(rng, laws, "brotli", idx, "block index");
-			if src.comp != TileCompression::Uncompressed {
-				tab.push(meta.clone());
-				test_codec_laws(rng, laws, comp_name(src.comp), meta, "metadata");
-			}
+	for (blob, kind, what) in valid_streams(ops, container, src.comp) {
+		if what == "block index" {
+			out.count(if blob.len() >= 256 { "v_block_index_ge_256_bytes" } else { "v_block_index_lt_256_bytes" });
 		}
-	} else {
-		// ops: p:16384, meta, tiles…, p:127, root, p:end, leaves, header
-		if !appended.is_empty() {
-			tab.push(appended[0].clone());
-			test_codec_laws(rng, laws, "gzip", appended[0], "metadata");
-		}
-		if let Some(i) = ops.iter().position(|o| *o == Op::SetPosition(127)) {
-			if let Some(Op::Append(root)) = ops.get(i + 1) {
-				tab.push(root.clone());
-				test_codec_laws(rng, laws, "gzip", root, "root directory");
-			}
+		test_codec_laws(rng, laws, kind, &blob, what);
+		tab.push(blob);
+	}
+	for b in &run.old_tab {
+		if !tab.contains(b) {
+			tab.push(b.clone());
 		}
 	}
-	let cuts = only_cuts.unwrap_or_else(|| choose_cuts(rng, &ops, all_header_cuts));
+	let cuts = only_cuts.unwrap_or_else(|| choose_cuts(rng, ops, all_header_cuts));
 	let rt = tokio::runtime::Builder::new_current_thread().enable_all().build().unwrap();
 	let mut letters = String::new();
-	let head = format!("C12 {container} {} {} {} {}", tab.len(), tab.iter().map(|b| hex(b)).collect::<Vec<_>>().join(" "), ops.len(), ops.iter().map(|o| o.show()).collect::<Vec<_>>().join(" "));
+	// in the case line the truncation of `File::create` is operation 0
+	let shift = if run.truncated { 1 } else { 0 };
+	let head = format!(
+		"C12 {container} {} {} {} {}{}",
+		tab.len(),
+		tab.iter().map(|b| hex(b)).collect::<Vec<_>>().join(" "),
+		ops.len() + shift,
+		if run.truncated { "t " } else { "" },
+		ops.iter().map(|o| o.show()).collect::<Vec<_>>().join(" ")
+	);
 	let head = head.replace("  ", " ");
+	let tail = match &run.old {
+		Some(old) => format!("old {} {}", hex(old), src.show()),
+		None => src.show(),
+	};
 	for (i, k) in &cuts {
-		let bytes = crash_state(&ops, *i, *k);
+		let bytes = run.state(*i, *k);
 		let (v, msg) = open_and_compare(&rt, container, &bytes, src);
 		let phase = if *i >= ops.len() {
 			"complete"
@@ -482,7 +616,7 @@ fn emit(out: &mut Out, rng: &mut Rng, laws: &mut Laws, src: &Src, container: cha
 			Verdict::Intact => {
 				if bytes == final_bytes {
 					'f'
-				} else if container == 'p' && bytes.len() == final_bytes.len() && bytes.len() >= 127 && bytes[..99] == final_bytes[..99] && bytes[127..] == final_bytes[127..] {
+				} else if container == 'p' && bytes.len() >= 127 && final_bytes.len() >= 127 && bytes[..99] == final_bytes[..99] && bytes[127..] == final_bytes[127..] {
 					'c'
 				} else {
 					'X'
@@ -490,38 +624,68 @@ fn emit(out: &mut Out, rng: &mut Rng, laws: &mut Laws, src: &Src, container: cha
 			}
 		};
 		letters.push(letter);
-		out.count(&format!("{container}_{phase}_{}", match v {
+		let tgt = if run.target == "memory" { String::new() } else { format!("{}_", run.target) };
+		out.count(&format!("{tgt}{container}_{phase}_{}", match v {
 			Verdict::Fail => "open_fails",
 			Verdict::Panic => "open_panics",
 			Verdict::Intact => "opens_tiles_intact",
 			Verdict::Wrong => "opens_WRONG",
 		}));
-		out.eval(&format!("{head}/{i}/{k}"), *k > 0 || phase == "header-rewrite");
-		let single = format!("{head} 1 {i}:{k} {}", src.show());
+		out.eval(&format!("{head}/{i}/{k}/{}", run.target), *k > 0 || phase == "header-rewrite" || run.target == "file-overwrite");
+		let single = format!("{head} 1 {}:{k} {tail}", i + shift);
 		// direct oracle, exactly the statement: the open fails, or every tile is returned intact
 		out.oracle(
 			v != Verdict::Wrong,
 			&format!("C12 opens-wrong: a crash state opens as a container that lacks or misreports a tile ({msg})"),
-			json!({"kind": "opens-wrong", "format": container.to_string(), "phase": phase, "comp": comp_name(src.comp)}),
-			json!({"case": single, "op": i, "byte_cut": k, "message": msg}),
+			json!({"kind": "opens-wrong", "format": container.to_string(), "phase": phase, "comp": comp_name(src.comp), "target": run.target}),
+			json!({"case": trunc(&single, 6000), "op": i, "byte_cut": k, "message": msg, "old_file_bytes": run.old.as_ref().map(|o| o.len()), "truncated_by_from_path": run.truncated}),
 		);
 		// the completed file must open and return everything (otherwise the check would be vacuous)
 		if *i >= ops.len() {
-			out.oracle(v == Verdict::Intact, &format!("C12 complete-file: the completed file does not open with all tiles ({msg})"), json!({"kind": "complete-file", "format": container.to_string()}), json!({"case": single, "message": msg}));
+			out.oracle(v == Verdict::Intact, &format!("C12 complete-file: the completed file does not open with all tiles ({msg})"), json!({"kind": "complete-file", "format": container.to_string(), "target": run.target}), json!({"case": trunc(&single, 6000), "message": msg}));
 		}
 	}
-	let line = format!("{head} {} {} {}", cuts.len(), cuts.iter().map(|(i, k)| format!("{i}:{k}")).collect::<Vec<_>>().join(" "), src.show());
+	let line = format!("{head} {} {} {tail}", cuts.len(), cuts.iter().map(|(i, k)| format!("{}:{k}", i + shift)).collect::<Vec<_>>().join(" "));
 	let nontrivial = cuts.iter().any(|(i, k)| *k > 0 && *i < ops.len());
 	out.case(&line, &letters, nontrivial);
-	out.count(&format!("cases_{container}_{}", comp_name(src.comp)));
+	out.count(&format!("cases_{}_{container}_{}", run.target, comp_name(src.comp)));
 	out.count_n("cuts", cuts.len() as u64);
 	out.count_n("ops", ops.len() as u64);
+}
+
+/// the real writers through the real `DataWriterFile`: first `old_src` on a fresh path (crash
+/// states judged against `old_src`), then `new_src` over the completed file at the SAME path
+/// (crash states judged against `new_src`)
+fn emit_overwrite(out: &mut Out, rng: &mut Rng, laws: &mut Laws, dir: &std::path::Path, old_src: &Src, new_src: &Src, container: char, all_header_cuts: bool) {
+	let path = dir.join(format!("c12_overwrite.{}", if container == 'v' { "versatiles" } else { "pmtiles" }));
+	let _ = std::fs::remove_file(&path);
+	let first = match record_file(old_src, container, &path, vec![]) {
+		Ok(r) => r,
+		Err(e) => {
+			out.count(&format!("file_writer_{}_{}", container, if e.starts_with("panic") { "panic" } else { "err" }));
+			return;
+		}
+	};
+	// the file the real writer left must be what the last snapshot shows
+	let on_disk = std::fs::read(&path).unwrap_or_default();
+	out.oracle(on_disk == first.state(first.ops.len(), 0), "C12 materialise: the closed file differs from the last snapshot of the real DataWriterFile", json!({"kind": "materialise", "format": container.to_string(), "target": "file"}), json!({"case": old_src.show()}));
+	judge(out, rng, laws, old_src, container, &first, false, None);
+	let old_tab: Vec<Vec<u8>> = valid_streams(&first.ops, container, old_src.comp).into_iter().map(|x| x.0).collect();
+	match record_file(new_src, container, &path, old_tab) {
+		Ok(second) => {
+			out.count(if second.truncated { "overwrite_from_path_truncates" } else { "overwrite_from_path_KEEPS_old_bytes" });
+			out.count(if on_disk.len() > second.state(second.ops.len(), 0).len() { "overwrite_old_longer" } else { "overwrite_old_shorter_or_equal" });
+			judge(out, rng, laws, new_src, container, &second, all_header_cuts, None);
+		}
+		Err(e) => out.count(&format!("file_writer_{}_{}", container, if e.starts_with("panic") { "panic" } else { "err" })),
+	}
+	let _ = std::fs::remove_file(&path);
 }
 
 pub fn run(args: &Args) {
 	quiet_panics();
 	let mut out = Out::new(&args.out);
-	out.rule = "tile sets of 1–14 (thorough: also 40–300) tiles over zoom 0–10 with empty, duplicate, tiny and ≥1000-byte payloads, formats pbf/png/bin/json/webp, declared compression none/gzip/brotli; the REAL VersaTilesWriter and PMTilesWriter run against a recording DataWriterTrait; crash states = every op-prefix, EVERY byte cut of the provisional header and of the final header rewrite (66 resp. 127 cuts; sampled for the large thorough sets), first/last/middle/2 random byte cuts of every other op, and the completed file; each state is materialised (positional write, zero fill) and opened with the real reader, all source tiles and neighbouring absent coordinates are compared; non-trivial = a state inside an operation or inside the header rewrite; distinct by (ops, cut)".into();
+	out.rule = "tile sets of 1–14 (thorough: also 40–300) tiles over zoom 0–10 with empty, duplicate, tiny and ≥1000-byte payloads, formats pbf/png/bin/json/webp, declared compression none/gzip/brotli; the REAL VersaTilesWriter and PMTilesWriter run against a recording DataWriterTrait; crash states = every op-prefix, EVERY byte cut of the provisional header and of the final header rewrite (66 resp. 127 cuts; sampled for the large thorough sets), first/last/middle/2 random byte cuts of every other op, and the completed file; additionally the same through the REAL DataWriterFile (every call forwarded, the file copied after each completed call, byte cuts applied to the copy): on a fresh path, and with a DIFFERENT tile set written over the completed container at the same path (old file longer and shorter than the new one) – judged against the NEW source; each state is materialised (positional write, zero fill) and opened with the real reader, all source tiles and neighbouring absent coordinates are compared; non-trivial = a state inside an operation or inside the header rewrite; distinct by (ops, cut)".into();
 	let mut laws = Laws { nil_tests: 0, be_tests: 0, prefix_tests: 0, accepted: vec![] };
 	let mut rng = Rng::new(args.seed);
 	if let Some(p) = &args.replay {
@@ -539,6 +703,26 @@ pub fn run(args: &Args) {
 			let nops: usize = t.get(nops_at).and_then(|x| x.parse().ok()).unwrap_or(0);
 			let ncuts_at = nops_at + 1 + nops;
 			let cuts: Vec<(usize, usize)> = t[(ncuts_at + 1).min(sp)..sp].iter().filter_map(|c| c.split_once(':')).filter_map(|(i, k)| Some((i.parse().ok()?, k.parse().ok()?))).collect();
+			if sp >= 2 && t[sp - 2] == "old" {
+				// through the real DataWriterFile, over the bytes the path held
+				let old = unhex(t[sp - 1]);
+				let path = args.out.join(format!("c12_replay.{}", if container == 'v' { "versatiles" } else { "pmtiles" }));
+				let _ = std::fs::remove_file(&path);
+				if !old.is_empty() {
+					std::fs::write(&path, &old).unwrap();
+				}
+				let line_shift = if t.get(nops_at + 1) == Some(&"t") { 1 } else { 0 };
+				let line_tab: Vec<Vec<u8>> = t[3..(3 + ntab).min(t.len())].iter().map(|h| unhex(h)).collect();
+				match record_file(&src, container, &path, line_tab) {
+					Ok(run) => {
+						let cuts: Vec<(usize, usize)> = cuts.iter().filter(|(i, _)| *i >= line_shift).map(|(i, k)| (i - line_shift, *k)).collect();
+						judge(&mut out, &mut rng, &mut laws, &src, container, &run, true, if cuts.is_empty() { None } else { Some(cuts) });
+					}
+					Err(e) => out.notes.push(format!("replay: the file writer failed: {e}")),
+				}
+				let _ = std::fs::remove_file(&path);
+				continue;
+			}
 			emit(&mut out, &mut rng, &mut laws, &src, container, true, if cuts.is_empty() { None } else { Some(cuts) });
 		}
 		finish_laws(&mut out, laws);
@@ -559,6 +743,19 @@ pub fn run(args: &Args) {
 		emit(&mut out, &mut rng, &mut laws, &src, 'v', true, None);
 		// a pmtiles file is ≥ 16 KiB: fewer cases carry all 127 header cuts
 		emit(&mut out, &mut rng, &mut laws, &src, 'p', i % 3 == 0, None);
+	}
+	// through the real DataWriterFile: fresh path, then a different tile set over the completed file
+	for round in 0..args.n(10, 40) {
+		let mut a = gen_src(&mut rng, round % 5 == 4);
+		let mut b = gen_src(&mut rng, round % 5 == 3);
+		if round % 2 == 1 {
+			std::mem::swap(&mut a, &mut b);
+		}
+		if a.tiles == b.tiles {
+			continue;
+		}
+		emit_overwrite(&mut out, &mut rng, &mut laws, &args.out, &a, &b, 'v', true);
+		emit_overwrite(&mut out, &mut rng, &mut laws, &args.out, &a, &b, 'p', round % 4 == 0);
 	}
 	for round in 0..args.n(3, 6) {
 		let src = gen_spread(&mut rng, round);
